@@ -219,6 +219,17 @@ func (b *BloomSearchEngine) Query(ctx context.Context, query *Query) (*Results, 
 
 	pruneBloomQuery := AndBloomQueries(rowBloomQuery, RegexFieldGuardBloomQuery(query.Regex))
 
+	// A tree without a single condition leaf (And(), nested empty nodes) is a
+	// constant: no filter can change its value. A constant-true tree is dropped
+	// so that, like a query without bloom conditions, it never reads a block
+	// filter region; a constant-false tree stays and rejects every file at the
+	// in-memory file-level test, before any read.
+	if pruneBloomQuery != nil && pruneBloomQuery.Expression != nil &&
+		!bloomExpressionHasCondition(pruneBloomQuery.Expression) &&
+		b.evaluateBloomExpression(nil, nil, nil, pruneBloomQuery.Expression) {
+		pruneBloomQuery = nil
+	}
+
 	// A query without bloom conditions cannot be disqualified by any filter:
 	// skip filter evaluation entirely, and downstream, skip reading the block
 	// filter sections (see evaluateBlockFilters).
@@ -444,6 +455,23 @@ func (b *BloomSearchEngine) Query(ctx context.Context, query *Query) (*Results, 
 	}()
 
 	return r, nil
+}
+
+// bloomExpressionHasCondition reports whether the tree contains a condition
+// leaf, i.e. whether bloom filters can influence its value at all.
+func bloomExpressionHasCondition(expression *BloomExpression) bool {
+	if expression == nil {
+		return false
+	}
+	if expression.ExpressionType == BloomExpressionCondition {
+		return expression.Condition != nil
+	}
+	for i := range expression.Children {
+		if bloomExpressionHasCondition(&expression.Children[i]) {
+			return true
+		}
+	}
+	return false
 }
 
 // blocksByAscendingRowDataOffset returns the blocks ordered by row data offset,
